@@ -433,7 +433,7 @@ static void combine_case(void) { combine_case_sw(-1); }
 
 /* a matrix wider than any cache-derived strip (more than 65536 columns make the strip height of the triangular column
  * permutation round down to nothing with a 4 KiB L1): sparse content, a handful of swaps */
-static void wide_tri_case(void) {
+static void wide_tri_case(int which) {
   int m = 3, n = 66000 + vh_randint(0, 70);
   mzd_t *A = vh_mk(m, n, 0);
   for (int i = 0; i < m; i++)
@@ -441,10 +441,11 @@ static void wide_tri_case(void) {
   mzp_t *P = mzp_init(n);
   for (int t = 0; t < 6; t++) { int i = vh_randint(0, n - 2); P->values[i] = vh_randint(i, n - 1); }
   vh_ev_t e;
-  vh_begin(&e, "apply_p_right_trans_tri");
+  /* (the plain column permutations walk the matrix in strips of (L1 / 8) / width rows as well) */
+  vh_begin(&e, which == 0 ? "apply_p_right_trans_tri" : which == 1 ? "apply_p_right" : "apply_p_right_trans");
   vh_pa(&e, "P", P->values, n);
   vh_opnd(&e, "A", 'b', A); vh_pre(&e);
-  if (VH_CALL(&e)) mzd_apply_p_right_trans_tri(A, P);
+  if (VH_CALL(&e)) { if (which == 0) mzd_apply_p_right_trans_tri(A, P); else if (which == 1) mzd_apply_p_right(A, P); else mzd_apply_p_right_trans(A, P); }
   VH_END(&e); vh_post(&e);
   mzp_free(P);
   vh_free_all();
@@ -473,7 +474,14 @@ int fam_rowops(const vh_args_t *a) {
   if (!vh_views && VH_SHARD(a, 4000000L)) {
     vh_case_seed(a, 4000000L);
     VH_CASE(4000000L)
-    wide_tri_case();
+    wide_tri_case(0);
+    VH_CASE_END
+  }
+  for (long w = 1; w <= 2; w++) {
+    if (strstr(a->extra, "nosweep") || !VH_SHARD(a, 4000000L + w)) continue;
+    vh_case_seed(a, 4000000L + w);
+    VH_CASE(4000000L + w)
+    wide_tri_case((int)w);
     VH_CASE_END
   }
   /* row combination: every row width 1..6 words x residue x in-place x alignment of destination and source
